@@ -13,6 +13,7 @@ var (
 	NoLogicalAssignToLocals bool // C09-stack-ref-rebase: ||= &&= ??= only on member targets
 	NoThrowingIteratorClose bool // C09-return-iterator-close-throws-state: mkIter return() modes 3/4 -> 1
 	SingleReturnPerInstance bool // C09-nested-return-completions: at most one return() per instance, none from drive()
+	NoDriveInHelpers        bool // C09-return-completed-before-iterators-closed: helper generators do not call drive()
 	NoDashChunk             bool // C09-property-key-minus: template chunk "-" (a possible property key "-" on a string) -> ":"
 )
 
@@ -939,11 +940,16 @@ func GenProgram(r Rand) *Program {
 	}
 	p.ReOps = g.reops
 	nh := g.pick(3)
+	savedReops := g.reops
+	if NoDriveInHelpers {
+		g.reops = nil
+	}
 	for i := 0; i < nh; i++ {
 		g.isHelper = true
 		h := g.function(fmt.Sprintf("inn%d", i), FGenerator, []string{"me", "a"}, 2+g.pick(3), 14+g.pick(10))
 		p.Helpers = append(p.Helpers, h)
 	}
+	g.reops = savedReops
 	g.isHelper = false
 	g.nHelpers = nh
 	g.method = g.chance(1, 4)
